@@ -406,9 +406,32 @@ func c13r5(c *Ctx) {
 			if !ok {
 				return false
 			}
-			v, _ := stripNot(i.Cond)
-			f := fieldOfLoad(v)
-			return f != nil && f.Name() == field
+			// the condition depends on the field (directly, or through the phi / operator of a hoisted `a || b`)
+			seen := map[ssa.Value]bool{}
+			var dep func(v ssa.Value, d int) bool
+			dep = func(v ssa.Value, d int) bool {
+				if v == nil || seen[v] || d > 6 {
+					return false
+				}
+				seen[v] = true
+				if f := fieldOfLoad(v); f != nil && f.Name() == field {
+					return true
+				}
+				switch x := v.(type) {
+				case *ssa.UnOp:
+					return dep(x.X, d+1)
+				case *ssa.BinOp:
+					return dep(x.X, d+1) || dep(x.Y, d+1)
+				case *ssa.Phi:
+					for _, e := range x.Edges {
+						if dep(e, d+1) {
+							return true
+						}
+					}
+				}
+				return false
+			}
+			return dep(i.Cond, 0)
 		}
 	}
 	// every way to the append that does not cross the "same cluster" edge passes both tests
